@@ -2,6 +2,7 @@ package props
 
 import (
 	"fmt"
+	"github.com/pip-services3-gox/pip-services3-expressions-gox/calculator"
 	"regexp"
 	"strings"
 	"testing"
@@ -104,6 +105,37 @@ func checkC02With(p *cparsers.ExpressionParser, c c02Case) *evid.Fail {
 	}
 	if (err == nil) != (err2 == nil) || (err == nil && strings.Join(first, " ") != strings.Join(actualRPN(p.ResultTokens()), " ")) {
 		return evid.F("resubmission-differs", "input %q: first submission gives %v %v, the second on the same parser gives %v %v", src, err, first, err2, actualRPN(p.ResultTokens()))
+	}
+	// the other ways of submitting the same input (the setters of the parser and of the calculator), each used twice
+	// in a row on one object, give the verdict ParseString / ParseTokens gave
+	{
+		verdicts := map[string]error{}
+		if g := guard(func() {
+			p2 := cparsers.NewExpressionParser()
+			var calc *calculator.ExpressionCalculator
+			if len(src)%3 == 0 { // a calculator is costly to build: a third of the inputs go through it
+				calc = calculator.NewExpressionCalculator()
+			}
+			for round := 1; round <= 2; round++ {
+				if c.ViaToken {
+					verdicts[fmt.Sprintf("parser.SetOriginalTokens #%d", round)] = p2.SetOriginalTokens(libTokens(c.Toks))
+				} else {
+					verdicts[fmt.Sprintf("parser.SetExpression #%d", round)] = p2.SetExpression(src)
+					if calc != nil {
+						verdicts[fmt.Sprintf("calculator.SetExpression #%d", round)] = calc.SetExpression(src)
+					}
+				}
+			}
+		}); g != nil {
+			g.Sig = "entry-point:" + g.Sig
+			g.Msg = fmt.Sprintf("input %q through the setters: %s", src, g.Msg)
+			return g
+		}
+		for _, name := range []string{"parser.SetOriginalTokens #1", "parser.SetOriginalTokens #2", "parser.SetExpression #1", "parser.SetExpression #2", "calculator.SetExpression #1", "calculator.SetExpression #2"} {
+			if e, ok := verdicts[name]; ok && (e == nil) != (err == nil) {
+				return evid.F("entry-point-verdict-differs", "input %q: %s gives %v, the parse call gave %v", src, name, e, err)
+			}
+		}
 	}
 	if tree == nil {
 		if err == nil {
